@@ -123,7 +123,10 @@ static void * body(void * a) {
   body_worker[i] = mv_worker();
   for (int k = 0; k < 64; k++) buf[i][k] = (unsigned char)(i * 64 + k + 1);
   if (cur->leaf_yield) { int leaf = 1; for (int k = 0; k < sh_nthreads[cur->shape]; k++) if (sh_parent[cur->shape][k] == i) leaf = 0; if (leaf) myth_yield(); }
+  int hinted = cur->var[i] == V_EX_HINT || cur->var[i] == V_EX_HINT_PF;
+  if (hinted) h_check_hint();
   children_of(i);
+  if (hinted) h_check_hint();     /* the thread's own frames and its switches must not have touched its custom data */
   done[i] = 1;
   if (cur->var[i] == V_EX_NULLID) { mv_point(&flag_nullid[i], sizeof(int)); flag_nullid[i] = 1; }
   if (cur->exit_style[i]) { mv_cover(5); h_exit_l1((void *)(long)(1000 + i)); mv_fail("myth_exit returned"); }
